@@ -1111,3 +1111,26 @@ func (c *Ctx) HeapImpl(rule, recvLen, recvPtr, less string) {
 		c.Check(ok, rule, FuncName(fn)+"/shrinks-by-one", c.P.Pos(fn.Pos()), "*h = old[:n-1]", "Pop does not shrink the heap by exactly its last element: "+strings.Join(sts, "; "))
 	}
 }
+
+// RetSpec / Returns: closed table of a small function's return sites.
+type RetSpec struct {
+	Args   []string
+	Guards []string
+	Why    string
+}
+
+func (c *Ctx) Returns(rule, fname string, rets ...RetSpec) {
+	fn := c.Fn(rule, fname)
+	if fn == nil {
+		return
+	}
+	var sp []SiteSpec
+	for _, r := range rets {
+		g := r.Guards
+		if g == nil {
+			g = []string{}
+		}
+		sp = append(sp, SiteSpec{Kind: "return", Args: r.Args, Guards: g, Exact: true, N: 1, Why: r.Why})
+	}
+	c.CheckSites(rule, fn, sp)
+}
